@@ -197,7 +197,7 @@ Fixpoint parse_fsteps (fuel : nat) (ts : list str) : option (list fstep) :=
                           else match hex_to_N n with Some n => Some (Some (N.to_nat n)) | None => None end in
                 match fl, hex_to_N m, parse_sop r1 with
                 | Some fl, Some m, Some (o, r2) =>
-                    let fx := {| fx_del := N.testbit m 0; fx_list := N.testbit m 1; fx_leave := N.testbit m 2 |} in
+                    let fx := {| fx_del := N.testbit m 0; fx_list := N.testbit m 1; fx_leave := N.testbit m 2; fx_land := N.testbit m 3 |} in
                     match parse_fsteps f r2 with Some l => Some (FOp fl fx o :: l) | None => None end
                 | _, _, _ => None
                 end
